@@ -370,6 +370,16 @@ def run(tier):
     for q in (1, 2):
         inbound = [{"g": 1, "after": 0, "q": q, "tag": 101}, {"g": 2, "after": 0, "q": q, "tag": 102, "dup": True}]
         rsc.append(rf.scenario("wf-%d" % len(rsc), [{"k": "handle", "h": 1}, P(1)], ["pre", "conn"], [{"k": 2, "o": "cutAfter"}], inbound=inbound))
+    # payload over the configured maximum handed to the retrying / reconnecting client: before the first connection exists
+    # (queued), while connected, during an outage -- nothing of it may reach the wire, what is within the limit does
+    for mx in (64, 1000):
+        for q in (0, 1, 2):
+            for tm in ("pre", "conn", "dial:2"):
+                big, ok = dict(P(q), size=mx + 50), dict(P(q), size=mx - 10)
+                fl = [{"p": "PUBLISH", "n": 1, "o": "cutAfter"}] if tm == "dial:2" else []
+                first = [P(1)] if tm == "dial:2" else []
+                w = first + [big, ok]
+                rsc.append(rf.scenario("mx-%d" % len(rsc), w, ["conn"] * len(first) + [tm, tm if tm != "pre" else "pre"], fl, opts={"maxPayload": mx}))
     fam.execute(binary, rsc)
     import dialer_family
     dialer_runs = dialer_family.c05(binary, v)
